@@ -534,11 +534,14 @@ def pad(t, shape, dim=None, fill_value=0):
     if not hasattr(shape, "__len__"):
         shape = [shape] * len(dim)
 
+    if fill_value != 0:
+        # The padded region is not separable: pad with zeros, then add the constant outside the original box
+        box = pad(tn.ones(t.shape), shape, dim=dim)
+        return pad(t, shape, dim=dim) + fill_value * (1 - box)
+
     t = t.clone()
     for i in range(len(dim)):
         mult = 0
-        if i == 0:
-            mult = fill_value
         if t.Us[dim[i]] is None:
             if t.cores[dim[i]].dim() == 2:
                 t.cores[dim[i]] = torch.cat(
